@@ -82,7 +82,7 @@ func runC06(a hx.Args) string {
 	second := sbSecond(s, b, legal, final)
 	// the observation reports the board as the first search left it
 	out := &hx.Nums{}
-	out.U(uint64(res.Move)).I(int64(res.Score)).U(uint64(res.Ponder)).B(res.Aborted).Int(res.Nodes)
+	out.U(hx.M2U(res.Move)).I(int64(res.Score)).U(uint64(res.Ponder)).B(res.Aborted).Int(res.Nodes)
 	out.Int(len(legal)).U(sbSortedMoves(legal)...)
 	out.Int(int(before.FiftyCnt), int(b.Threefold())).B(b.InCheck(b.STM))
 	out.B(sbSnapEqual(before, after))
@@ -298,7 +298,7 @@ func runC06uci(a hx.Args) string {
 	// with the FEN of the root it was given
 	snapEq := fenLine == b.FEN()
 	out := &hx.Nums{}
-	out.U(uint64(m)).I(score).U(uint64(p)).B(r.Nodes >= 0).Int(0)
+	out.U(hx.M2U(m)).I(score).U(uint64(p)).B(r.Nodes >= 0).Int(0)
 	out.Int(len(legal)).U(sbSortedMoves(legal)...)
 	out.Int(int(before.FiftyCnt), int(b.Threefold())).B(b.InCheck(b.STM))
 	out.B(snapEq).Int(second).B(m != 0xffff).B(false)
